@@ -41,6 +41,9 @@ type Trace struct {
 	// Deviated is set when a requested schedule entry named an actor that was not enabled at that point and the
 	// fallback rule had to be used. For prefixes produced by Explore this means the run was not deterministic.
 	Deviated bool `json:"deviated,omitempty"`
+	// FinishedAt[i] is the number of steps that had been executed when actor i was seen finished: every step with an
+	// index >= FinishedAt[i] happened after actor i returned.
+	FinishedAt []int `json:"finished_at"`
 	// Panics holds the recovered panic value per actor (nil = none).
 	Panics []any `json:"-"`
 	// Polls counts the stack-dump polls that were needed (diagnostics).
@@ -98,6 +101,7 @@ type actor struct {
 	pending  bool
 	op       string
 	finished bool
+	finAt    int
 	blocked  bool
 	panicVal any
 }
@@ -105,6 +109,7 @@ type actor struct {
 // S is one scheduler instance; use it for exactly one Run.
 type S struct {
 	n      int
+	nsteps int
 	opt    Options
 	actors []*actor
 	byGID  sync.Map // uint64 -> *actor
@@ -249,11 +254,14 @@ func (s *S) Run(schedule []int, body func(actor int)) (Trace, error) {
 		tr.Steps = append(tr.Steps, Step{Actor: pick, Op: a.op, Enabled: enabled, Blocked: blocked})
 		a.pending = false
 		a.op = ""
+		s.nsteps = len(tr.Steps)
 		a.grant <- struct{}{}
 	}
 	s.free.Store(true)
+	tr.FinishedAt = make([]int, s.n)
 	for i, a := range s.actors {
 		tr.Panics[i] = a.panicVal
+		tr.FinishedAt[i] = a.finAt
 	}
 	tr.Polls = s.polls
 	return tr, nil
@@ -342,7 +350,7 @@ func (s *S) poll(a *actor) bool {
 	case <-a.done:
 		// the body may have issued a request right before finishing? no: a request parks the actor, so done implies
 		// no outstanding request.
-		a.finished, a.blocked = true, false
+		a.finished, a.blocked, a.finAt = true, false, s.nsteps
 		return true
 	default:
 	}
